@@ -290,3 +290,96 @@ func ruleAllExportedTagged(r *Report, rule, pkgRel, typeName string) {
 		r.Ob(rule, typeName+"."+f.Var.Name()+"/tagged", f.Var.Pos(), f.Tagged, fmt.Sprintf("exported field %s.%s must carry a json tag", typeName, f.Var.Name()))
 	}
 }
+
+// ruleOmitemptyNeedsEmptyDefault (K9): for every struct type T that is decoded
+// by a hand-written (*T).UnmarshalJSON but encoded by encoding/json from its
+// tags, a field tagged `omitempty` is missing from the output whenever it is
+// zero, so the decoder must give a missing key the zero value.  Every store of
+// a constant (or non-empty literal) into such a field inside UnmarshalJSON must
+// therefore be JSON-empty; a non-empty default turns "explicitly zero" into
+// the default after one marshal/unmarshal round trip (Size 0 -> 10).
+// Fields without omitempty are reported as obligations too (they are always
+// written), so the rule sees every (field, default) pair.
+func ruleOmitemptyNeedsEmptyDefault(r *Report, rule string, pkgPrefixes ...string) {
+	p := r.P
+	n := 0
+	for _, fi := range p.flist {
+		if fi.Decl.Body == nil || fi.Decl.Recv == nil || fi.Obj.Name() != "UnmarshalJSON" {
+			continue
+		}
+		rel := relPkg(fi.Pkg.PkgPath)
+		okPkg := len(pkgPrefixes) == 0
+		for _, pre := range pkgPrefixes {
+			if rel == pre || strings.HasPrefix(rel, pre+"/") {
+				okPkg = true
+			}
+		}
+		if !okPkg {
+			continue
+		}
+		sig := fi.Obj.Type().(*types.Signature)
+		rt := sig.Recv().Type()
+		if pt, ok := rt.(*types.Pointer); ok {
+			rt = pt.Elem()
+		}
+		nt, _ := rt.(*types.Named)
+		if nt == nil {
+			continue
+		}
+		st, ok := nt.Underlying().(*types.Struct)
+		if !ok {
+			continue
+		}
+		hasMarshal := false
+		for i := 0; i < nt.NumMethods(); i++ {
+			if nt.Method(i).Name() == "MarshalJSON" {
+				hasMarshal = true
+			}
+		}
+		if hasMarshal {
+			continue // encoder is hand-written too: agreement is a different rule
+		}
+		info := fi.Pkg.TypesInfo
+		typeName := nt.Obj().Name()
+		for _, f := range jsonFieldsOf(st) {
+			if f.Skip || !f.Var.Exported() {
+				continue
+			}
+			for _, stf := range storesToField(info, fi.Decl.Body, typeName, f.Var.Name()) {
+				if stf.Rhs == nil {
+					continue
+				}
+				tv, isConst := info.Types[stf.Rhs]
+				lit := false
+				if cl, ok := ast.Unparen(stf.Rhs).(*ast.CompositeLit); ok && len(cl.Elts) > 0 {
+					// a literal built from decoded values is not a default
+					lit = true
+					ast.Inspect(cl, func(x ast.Node) bool {
+						if id, ok := x.(*ast.Ident); ok {
+							if v, ok := info.Uses[id].(*types.Var); ok && !v.IsField() && v.Parent() != v.Pkg().Scope() {
+								lit = false
+							}
+						}
+						return true
+					})
+				}
+				if !(isConst && tv.Value != nil) && !lit {
+					continue
+				}
+				n++
+				r.Fn(fi)
+				empty := jsonEmptyDefault(info, stf.Rhs, f.Var.Type())
+				key := rel + "." + typeName + "." + f.Var.Name() + "/default-" + exprShort(stf.Rhs)
+				if f.OmitEmpty {
+					r.Ob(rule, key+"/omitempty-default-is-empty", stf.Stmt.Pos(), empty,
+						"field "+f.Var.Name()+" is `omitempty` (a zero value is left out by encoding/json) but UnmarshalJSON gives it "+exprShort(stf.Rhs)+" when nothing better was decoded: a request/mapping with the field explicitly zero comes back with that default after one marshal/unmarshal round trip")
+				} else {
+					r.Ob(rule, key+"/always-written", stf.Stmt.Pos(), true, "not omitempty: always written, so the default only applies to hand-written JSON")
+				}
+			}
+		}
+	}
+	if n < 2 {
+		undecidedf("omitempty/default rule matched %d constant defaults", n)
+	}
+}
